@@ -25,7 +25,8 @@ SIGS = {"t1": [INT, STR], "t2": [INT, INT, BOOL], "t3": [INT], "t4": [INT, STR, 
 NAMES = sorted(SIGS)
 MAXI = 9223372036854775807
 FEATS = {"join", "outer", "agg", "distinct", "union", "case", "inlist", "limit"}
-UNSUPPORTED = ("Not yet implemented", "not yet supported", "not supported", "Unsupported", "unsupported")
+# engine rejections of valid SQL that are limitations of the binder/planner, not catalog behaviour
+UNSUPPORTED = ("Not yet implemented", "not yet supported", "not supported", "Unsupported", "unsupported", "must appear in the GROUP BY clause")
 
 
 class R(qgen.Renderer):
@@ -75,7 +76,7 @@ def gen_script(rng, nsess, length):
         sig = SIGS[n]
         g = qgen.Gen(rng, {k: (v, []) for k, v in schema_all.items()}, FEATS) if schema_all else None
 
-        def query_of(sig, allow_missing=True):
+        def query_of(sig, allow_missing=True, allow_fail=True):
             """Random query of output signature `sig` over existing objects (sometimes a missing one)."""
             if g is None or (allow_missing and rng.chance(1, 25)):
                 miss = f"{rng.pick(SCHEMAS)}.{rng.pick(NAMES)}"
@@ -86,7 +87,7 @@ def gen_script(rng, nsess, length):
             if g is None:
                 rows = [[("lit", qgen.gen_value(rng, t, 15), t) for t in sig] for _ in range(1 + rng.below(3))]
                 return ("values", rows), sig, {}
-            if rng.chance(1, 12):
+            if allow_fail and rng.chance(1, 12):
                 return fail_query(rng, sig, g), sig, {}
             q, ty = g.query(rng.pick([0, 0, 1, 1, 2]))
             if qgen.excluded(q):
@@ -115,7 +116,9 @@ def gen_script(rng, nsess, length):
             if s in m.s and n not in m.s[s]:
                 m.s[s][n] = "table"
         elif c < 32:
-            q, ty, extra = query_of(sig)
+            # a view body that fails at run time is not generated: whether a later query over such a view fails depends on
+            # whether the optimizer still evaluates the view (a WHERE false above it removes the error) - allowed by C02
+            q, ty, extra = query_of(sig, allow_fail=False)
             sql = render(q, extra)
             cols = ", ".join(f"k{i}" for i in range(len(sig)))
             out.append((sid, f"(create-view {s} {n} {len(sig)} {qgen.sexp(q)})", [f"CREATE TEMP VIEW {sqlname(s, n, rng)} ({cols}) AS {sql}"], "ddl", None))
@@ -159,10 +162,15 @@ def gen_script(rng, nsess, length):
                     b = rng.chance(1, 2)
                     out.append((sid, f"(set {var} 1 {int(b)})", [f"SET {var} TO {'true' if b else 'false'}"], "ddl", None))
             else:
-                good = {"partitions": [1, 2, 3, 8, 16, 512], "batch_size": [64, 100, 2048, 8192], "no_such_setting": [1]}[var]
+                good = {"partitions": [1, 2, 3, 8, 16, 64, 512], "batch_size": [64, 100, 2048, 8192], "no_such_setting": [1]}[var]
                 bad = {"partitions": [0, 513, -1], "batch_size": [0, 8193, 100000], "no_such_setting": [1]}[var]
                 v = rng.pick(bad) if rng.chance(1, 4) else rng.pick(good)
                 out.append((sid, f"(set {var} 0 {v})", [f"SET {var} TO {v}"], "ddl", None))
+                if var == "partitions" and v == 512:
+                    # the upper bound is accepted; queries under 512 partitions need many GiB (512 hash tables per join),
+                    # so the value is read back and reset at once
+                    out.append((sid, f"(show {var})", [f"SHOW {var}"], "show", None))
+                    out.append((sid, f"(reset {var})", [f"RESET {var}"], "ddl", None))
         elif c < 92:
             if existing and rng.chance(2, 3):
                 s2, n2, _ = rng.pick(existing)
